@@ -766,6 +766,15 @@ RAW_WRITES = ("core::ptr::write", "<*mut T>::write", "core::ptr::write_volatile"
 RAW_COPIES = ("core::ptr::copy_nonoverlapping", "core::ptr::copy", "core::intrinsics::copy_nonoverlapping", "core::intrinsics::copy")
 
 
+def _rooted_in_handle_arg(F, B, b, l):
+    """The place is reached from a parameter that is (a reference to) an owning handle - not from a raw block pointer a constructor
+    or a private guard passes around before any handle exists, and not inside an `unsafe fn`, whose callers carry the obligation."""
+    for ai in root_args(B, l):
+        if 1 <= ai <= len(b.get("inputs", [])) and F.tokens(F.strip_refs(b["inputs"][ai - 1]))[0] > 0:
+            return True
+    return False
+
+
 def _written_through(B, l):
     """Is the raw pointer defined into local `l` written through in this body: destination of a `ptr::write`-style call or copy, or
     dereferenced on the left of an assignment? (`addr_of_mut!` that only ends up as the `*const T` a function hands out is not.)"""
@@ -822,7 +831,7 @@ def rule_gate(ctx, rep):
                         prod, root_pl = "write into the payload", s["lhs"]
                     elif rv["k"] == "ref" and rv["mut"] and _has_data(F, rv["place"]) and not s["span"].get("exp_internal"):
                         prod, root_pl = "mutable borrow of the payload", rv["place"]
-                    elif rv["k"] == "rawptr" and rv.get("mut") and _has_data(F, rv["place"]) and not s["span"].get("exp_internal") and _written_through(B, s["lhs"]["l"]):
+                    elif rv["k"] == "rawptr" and rv.get("mut") and _has_data(F, rv["place"]) and not s["span"].get("exp_internal") and not b.get("unsafe") and _rooted_in_handle_arg(F, B, b, rv["place"]["l"]) and _written_through(B, s["lhs"]["l"]):
                         # `addr_of_mut!((*p).data.field)`: taken to be written through (`.write(v)`), which needs the same licence as `&mut`
                         prod, root_pl = "mutable raw pointer to the payload", rv["place"]
                     elif rv["k"] == "ref" and rv["mut"] and rv["place"]["p"] and rv["place"]["p"][0] == "deref" and _via_data_pointer_handle(F, B, rv["place"]["l"]) is not None:
@@ -1035,16 +1044,30 @@ def rule_panic_decline(ctx, rep):
                                 if "output" in cb and F.ts(cb["output"]).startswith("core::result::Result<") and F.mentions_adt(cb["output"], F.handle_paths.get("UniqueArc")):
                                     tags.append(e["detail"].get("tag"))
                         if tags != ["Ok"]:
+                            if _returns_only_behind_gate(F, E, fb):
+                                continue  # the helper tests the gate itself: `if Arc::count(arc) != 1 { not_unique(..) }` (an Acquire test)
                             ok, why = False, balance.path_report(F, fb, p, "the checking helper returns although the uniqueness test declined (it must panic instead of granting write access)")
                     if n == 0:
                         ok, why = False, "the checking helper %s never returns" % first
-                    if ok and not inline_match and not F.mentions_adt(fb["output"], F.handle_paths.get("UniqueArc")):
+                    if ok and not inline_match and not F.mentions_adt(fb["output"], F.handle_paths.get("UniqueArc")) and not _returns_only_behind_gate(F, E, fb):
                         ok, why = False, "the first call of the deprecated writer (%s) does not return `&mut UniqueArc`" % first
                 if ok:
                     rep.ok("R-PANIC-DECLINE", b["key"], cfg=tag)
                 else:
                     rep.bad("R-PANIC-DECLINE", b["key"], why, F.loc(b), tag)
     rep.floor("R-PANIC-DECLINE", 2, "the two deprecated writers")
+
+
+def _returns_only_behind_gate(F, E, fb):
+    """Every `return` of the helper is unreachable from its entry once the gate-true edges (an Acquire uniqueness test of its first
+    argument) are removed: the declining side cannot return."""
+    B = cfg.Body(fb)
+    G = Gates(F)
+    cuts = gate_cuts(F, G, B, E)
+    rets = [bi for bi, bl in enumerate(fb["blocks"]) if bl["term"]["k"] == "return"]
+    if not rets or not cuts.get(1):
+        return False
+    return all(not reachable_without(B, cuts.get(1, set()), set(), bi) for bi in rets)
 
 
 def _has_data(F, pl):
